@@ -2,7 +2,7 @@
    interleaving model Model/CacheConc.v, the full statement, and its two refutations (known findings K1, K3). *)
 From Coq Require Import List Arith Bool.
 From TC.Model Require Import CacheConc.
-From TC.Proofs Require Import CacheConcBase CacheConcSafe.
+From TC.Proofs Require Import CacheConcBase CacheConcSafe CacheConcTicker CacheConcCap CacheConcRace.
 Import ListNotations.
 
 Section C08.
@@ -26,6 +26,59 @@ Section C08.
     (forall m k v, In m (pmaps s) -> In (k, v) m -> In (LSpawn (OSet k v)) ls)
     /\ (forall k v, In (OGet k, PDone (RVal v)) (threads s) -> v = zero \/ In (LSpawn (OSet k v)) ls).
   Proof. exact (cache_get_was_set_sched keqb zero keqb_spec c ls s). Qed.
+  (* Cancelling the construction context ends the background sweeper.  After cancel, for EVERY continuation of
+     EVERY schedule: the context stays cancelled; whenever the ticker goroutine is at its select its exit step is
+     enabled, and it is its ONLY step unless a tick is waiting in the ticker channel; as long as the timer delivers
+     no further tick the goroutine begins at most one more sweep (the tick already buffered at that moment; none
+     if the channel is empty) — [tk_begins] counts the sweeps begun by the ticker goroutine along the continuation;
+     a sweep it is in the middle of ends after exactly n+1 of its own steps, each of which is always enabled; and
+     once exited it never steps again.
+     (Go's select picks at random among ready cases, so a tick that is ready together with ctx.Done() can delay
+     the exit by one sweep per such tick; the model has exactly this freedom.) *)
+  Theorem C08_partial_sweeper_stops (c : config) (ls1 : list label) s1 :
+    run c init ls1 = Some s1 -> cancelled s1 = true ->
+    forall ls2 s2, run c s1 ls2 = Some s2 ->
+      cancelled s2 = true
+      /\ (forallb (fun l => negb (is_tick l)) ls2 = true ->
+          tk_begins keqb zero c s1 ls2 + b2n (tick s2) <= b2n (tick s1))
+      /\ (forall i, nth_error (threads s2) i = Some (OTicker, PTkWait) ->
+            step keqb zero c s2 (LExit i) = Some (set_pc s2 i OTicker (PDone RUnit))
+            /\ (tick s2 = false -> step keqb zero c s2 (LStep i) = None))
+      /\ (forall i n, nth_error (threads s2) i = Some (OTicker, PSwPop n) ->
+            exists s3, step keqb zero c s2 (LStep i) = Some s3
+                       /\ nth_error (threads s3) i = Some (OTicker, match n with 0 => PTkWait | S n' => PSwPop n' end))
+      /\ (forall i, nth_error (threads s2) i = Some (OTicker, PDone RUnit) ->
+            step keqb zero c s2 (LStep i) = None /\ step keqb zero c s2 (LExit i) = None).
+  Proof. exact (cache_sweeper_stops keqb zero c ls1 s1). Qed.
+
+  (* After fix F15 ([recheck c = true]): for EVERY schedule without Delete/Clear in which at most
+     maxPartitions*partitionCapacity Sets are called — with any number of Get/Contains/Sweep calls, timer ticks,
+     ticker steps and cancellation interleaved in any way —
+       (1) no partition is ever evicted: the stack holds exactly the partitions with ids 1..ctr, i.e. all that
+           were ever opened, and at most maxPartitions were opened
+           (invariant: k partitions opened => the first k-1 are full and, when the k-th was opened, the opener's
+            own pair was not yet stored, so more than (k-1)*C Sets had been called);
+       (2) if moreover the keys of the Sets are pairwise distinct, every Set that has returned is present:
+           Get k evaluated on that state returns its value and Keys() contains k. *)
+  Theorem C08_partial_within_capacity (c : config) (ls : list label) s :
+    recheck c = true ->
+    run c init ls = Some s -> forallb (@wc_label K V) ls = true ->
+    length (set_args ls) <= maxP c * capC c ->
+    (exists st, stacks s = [st] /\ fparts s = 0 /\ map fst (ents st) = seq 1 (ctr st)
+                /\ ctr st = length (pmaps s) /\ ctr st <= maxP c)
+    /\ (NoDup (map fst (set_args ls)) ->
+        forall i k v r, nth_error (threads s) i = Some (OSet k v, PDone r) ->
+                        get_now keqb zero s k = v /\ In k (keys_now s)).
+  Proof. intros Hre. exact (cache_within_capacity keqb zero keqb_spec c Hre ls s). Qed.
+
+  (* Race freedom of the core: for EVERY schedule in which nobody calls Clear (Resize is not modelled; the part of
+     it that matters here is Clear's), no reachable state has two different goroutines whose next steps are both
+     enabled and contain conflicting accesses (same location, at least one write) not ordered by a common lock held
+     exclusively by at least one side.  Locations and locks per step: Model/CacheConc.v [footprint].  With
+     DRF-SC of the Go memory model this is what justifies the interleaving semantics for these schedules. *)
+  Theorem C08_partial_race_free_core (c : config) (ls : list label) s :
+    forallb (fun l => negb (@is_clear K V l)) ls = true -> run c init ls = Some s -> ~ race keqb zero c s.
+  Proof. exact (cache_race_free keqb zero c ls s). Qed.
 End C08.
 
 (* ------------------------------------------------------------------------------------------------------------
@@ -96,8 +149,47 @@ Example C08_ex_run :
             /\ nth_error (threads s) 3 = Some (OGet 1, PDone (RVal 11)) /\ nth_error (threads s) 0 = Some (OTicker, PDone RUnit).
 Proof. eexists. split; [vm_compute; reflexivity|]. split; reflexivity. Qed.
 
+(* non-vacuity of C08_partial_within_capacity: the schedule of lost_insert_refuted (Findings/CacheConc.v) on the FIXED
+   code: 2 distinct keys, capacity 1*2; both present, one partition *)
+Definition within_capacity_example : list (@label nat nat) :=
+  [LSpawn (OSet 1 11); LSpawn (OSet 2 22); LStep 1; LStep 2; LStep 1; LStep 2; LStep 1; LStep 2;
+   LStep 1; LStep 2; LStep 1; LStep 2; LStep 3; LStep 3].
+Example C08_ex_within_capacity_hyps :
+  forallb (@wc_label nat nat) within_capacity_example = true
+  /\ length (set_args within_capacity_example) <= 1 * 2
+  /\ NoDup (map fst (set_args within_capacity_example)).
+Proof.
+  split; [reflexivity|]. split; [vm_compute; auto|].
+  vm_compute. constructor; [intros [H|[]]; discriminate|constructor; [intros []|constructor]].
+Qed.
+Example C08_ex_within_capacity_run :
+  match run Nat.eqb 0 (fixed_cfg 1 2) init within_capacity_example with
+  | Some s => quiescent s && (get_now Nat.eqb 0 s 1 =? 11) && (get_now Nat.eqb 0 s 2 =? 22) && (length (pmaps s) =? 1)
+  | None => false
+  end = true.
+Proof. vm_compute. reflexivity. Qed.
+
+(* non-vacuity of C08_partial_sweeper_stops: cancel while a tick is buffered: the ticker may still sweep once
+   (3 steps), is back at its select with an empty channel, and then can only exit *)
+Example C08_ex_sweeper :
+  match run Nat.eqb 0 (fixed_cfg 2 2) (@init nat nat) [LTick; LCancel] with
+  | Some s1 =>
+      cancelled s1 && tick s1 && (tk_begins Nat.eqb 0 (fixed_cfg 2 2) s1 [LStep 0; LStep 0; LStep 0] =? 1)
+      && match run Nat.eqb 0 (fixed_cfg 2 2) s1 [LStep 0; LStep 0; LStep 0] with
+         | Some s2 => negb (tick s2)
+                      && match step Nat.eqb 0 (fixed_cfg 2 2) s2 (LStep 0) with None => true | Some _ => false end
+                      && match step Nat.eqb 0 (fixed_cfg 2 2) s2 (LExit 0) with Some _ => true | None => false end
+         | None => false
+         end
+  | None => false
+  end = true.
+Proof. vm_compute. reflexivity. Qed.
+
 Print Assumptions C08_partial_no_panic.
 Print Assumptions C08_partial_get_was_set.
+Print Assumptions C08_partial_sweeper_stops.
+Print Assumptions C08_partial_within_capacity.
+Print Assumptions C08_partial_race_free_core.
 Print Assumptions C08_duplicate_key_refuted.
 Print Assumptions C08_race_refuted.
 Print Assumptions C08_full_statement_refuted.
